@@ -13,6 +13,7 @@ from .sym import SR, SC, SI, SB, ZERO, ONE, Inconclusive, to_fraction, sb_term, 
 
 _real_np = np
 FLAGS = {"int_symbolic": False}
+CASTS = []  # (array, target integer dtype) for every cast of symbolic integers
 
 
 class SA(np.ndarray):
@@ -46,6 +47,11 @@ class SA(np.ndarray):
             return self.copy()
         if kind in "iub":
             out = np.asarray(self)
+            if any(isinstance(x, SI) for x in out.ravel()):
+                r = self.copy()
+                r.decl = str(_real_np.dtype(dtype))
+                CASTS.append((r, str(_real_np.dtype(dtype))))  # harness turns these into range side conditions
+                return r
             try:
                 return _real_np.array([int(x) for x in out.ravel()], dtype=dtype).reshape(out.shape)
             except Inconclusive:
@@ -672,6 +678,33 @@ class NPShim(types.ModuleType):
         if is_sym(a):
             return int(sum(1 for x in _o(a).ravel() if bool(x != 0)))
         return _real_np.count_nonzero(a, **k)
+
+    def all(self, a, axis=None, **k):
+        if isobj(a) or isinstance(a, SB):
+            if isinstance(a, SB):
+                return bool(a)
+            for e in _real_np.asarray(a, dtype=object).ravel():
+                if not bool(e):
+                    return False
+            return True
+        return _real_np.all(a, axis=axis, **k)
+
+    def any(self, a, axis=None, **k):
+        if isobj(a) or isinstance(a, SB):
+            if isinstance(a, SB):
+                return bool(a)
+            for e in _real_np.asarray(a, dtype=object).ravel():
+                if bool(e):
+                    return True
+            return False
+        return _real_np.any(a, axis=axis, **k)
+
+    def log(self, x):
+        if isinstance(x, (SR,)):
+            return x._fn("log")
+        if isobj(x):
+            return _map(x, lambda e: _lift_scalar(e)._fn("log"))
+        return self._wrap(_real_np.log(x))
 
     def array_equal(self, a, b, **k):
         if is_sym(a) or is_sym(b):
